@@ -3,7 +3,7 @@
 //! their generators are exported separately (`gen_skip`, `gen_cut`, `gen_fault`).
 //!
 //! ops (all answered by the Lean model as well, see lean/JominiModel/Driver/C08.lean):
-//!   blexbytes <hex> <n,n,..> | bparts <cap> <sched> <hex> <k> | bfits <cap> <hex> | blex <hex> | blexid <hex> | bpeek <hex> | bcut <hex> <k> | bwrite <toks>
+//!   bwritefail <toks> <k> | blexbytes <hex> <n,n,..> | bparts <cap> <sched> <hex> <k> | bfits <cap> <hex> | blex <hex> | blexid <hex> | bpeek <hex> | bcut <hex> <k> | bwrite <toks>
 //!   bstream <cap> <sched> <hex> | bread <cap> <sched> <hex> | bcalls <cap> <sched> <hex> <n>
 //!   breadbytes <cap> <sched> <hex> <n,n,..>
 //!   bskip <cap> <sched> <hex> <k> | blexskip <hex> <k> | blexskipv <hex> <k>
@@ -582,6 +582,31 @@ fn exec_inner(w: &[&str], obs: &mut Obs) -> Option<String> {
             }
             Some(hex(&out))
         }
+        ["bwritefail", ts, kw] => {
+            // Token::write into a writer that accepts k bytes and then fails: every `?` of write()
+            let toks = parse_toks(ts)?;
+            let k: usize = kw.parse().ok()?;
+            struct Limited { out: Vec<u8>, left: usize }
+            impl std::io::Write for Limited {
+                fn write(&mut self, buf: &[u8]) -> std::io::Result<usize> {
+                    if self.left == 0 && !buf.is_empty() { return Err(std::io::Error::new(std::io::ErrorKind::Other, "writer full")); }
+                    let n = self.left.min(buf.len());
+                    self.out.extend_from_slice(&buf[..n]);
+                    self.left -= n;
+                    Ok(n)
+                }
+                fn flush(&mut self) -> std::io::Result<()> { Ok(()) }
+            }
+            let mut w = Limited { out: vec![], left: k };
+            let mut res = "ok";
+            for t in &toks { if t.borrow().write(&mut w).is_err() { res = "err:io"; break; } }
+            // L3: what reached the writer is a prefix of the full encoding; an error iff it did not all fit
+            let full = encode(&toks);
+            if !full.starts_with(&w.out) || (res == "ok") != (w.out.len() == full.len()) || w.out.len() != k.min(full.len()) {
+                obs.violation("write-partial", &case(), &hex(&w.out));
+            }
+            Some(format!("{} {}", hex(&w.out), res))
+        }
         ["bstream", cw, sw, h] | ["bread", cw, sw, h] => {
             let d = unhex(h)?;
             let steps = sched::parse(sw)?;
@@ -1035,6 +1060,15 @@ pub fn gen_c08(g: &mut Gen) {
         for k in 0..b.len().min(40) { g.emit(format!("blex {}", hex(&b[..k]))); g.emit(format!("bpeek {}", hex(&b[..k]))); }
     }
     g.count("fixed-boundary-tokens");
+
+    // 1a. Token::write into a writer that fails after k bytes, every k, every token kind
+    for t in &fixed {
+        let len = encode(std::slice::from_ref(t)).len();
+        let ks: Vec<usize> = if len <= 40 { (0..=len + 1).collect() } else { vec![0, 1, 2, 3, 4, 5, len - 1, len, len + 1] };
+        for k in ks { g.emit(format!("bwritefail {} {}", t.show(), k)); }
+    }
+    g.emit("bwritefail Id:1,Equal,Rgb:1.2.3.4,Q:4142,Close 13".to_string());
+    g.count("write-failing-writer");
 
     // 1b. exhaustive (not random): for EVERY token kind / boundary payload above, the inputs with a
     // stray trailing byte, every odd length, every cut inside the token, streamed through the reader
